@@ -784,5 +784,71 @@ func checkWarnings(p *Program, r *Report, pk *ssa.Package, runner *ssa.Function)
 		r.Fail("R17.5", "sim.RunSingleModelJSON:log-warnings", p.Pos(runner.Pos()), "the warnings returned by Initialise are not all passed to the log before the model runs")
 	}
 	r.Floor("R17.5", "reporting obligations", nW, 3)
+
+	// R17.7: a supplied series lands in the row of the input it was supplied for
+	r.Rule("R17.7", "input assembly: each supplied series is written to the row whose index is the position, in the model description's input list, of the name it was looked up under (same loop index for the lookup and for the row)")
+	nRows := 0
+	for _, c := range callsIn(initialise) {
+		nm := callName(c.Common())
+		if nm != "Apply" && nm != "ApplySlice" && nm != "Apply1" {
+			continue
+		}
+		recv := recvOf(c.Common())
+		if recv == nil || !isNDType(recv.Type()) {
+			continue
+		}
+		args := callArgs(c.Common())
+		if len(args) < 4 {
+			continue
+		}
+		nRows++
+		key := "sim.Initialise:input-row"
+		// row index = loc[1]
+		vals, _, unk := vecElemAt(nil2eff(p), args[0], 1, c)
+		if unk != "" || len(vals) != 1 {
+			r.Undecided("R17.7", key, p.Pos(c.Pos()), "row index of the input write undetermined")
+			continue
+		}
+		row := vals[0]
+		// the series written: Find(name) result, name = element [row] of the description's inputs
+		okRow := false
+		why := "the series written is not the result of looking up the description's input at that row"
+		for _, o := range origins(args[3]) {
+			fc, ok := o.(*ssa.Call)
+			if !ok || callName(fc.Common()) != "Find" {
+				continue
+			}
+			name := callArgs(fc.Common())[0]
+			// name must be descInputs[row]
+			for _, no := range origins(name) {
+				u, ok := no.(*ssa.UnOp)
+				if !ok {
+					continue
+				}
+				ia, ok := u.X.(*ssa.IndexAddr)
+				if !ok {
+					continue
+				}
+				if ia.Index == row || origin1(ia.Index) == origin1(row) {
+					// and the indexed slice is the Inputs field of the model description
+					if n, _, okf := loadedField(origin1(ia.X)); okf && n == "Inputs" {
+						okRow = true
+					} else {
+						why = "the names are not taken from the model description's Inputs list"
+					}
+				} else {
+					why = "the row index is not the position of the looked-up name in the description's input list"
+				}
+			}
+		}
+		if okRow {
+			r.OK("R17.7", "sim.Initialise: series looked up as desc.Inputs[i] is written to row i")
+		} else {
+			r.Fail("R17.7", key, p.Pos(c.Pos()), "a supplied input series may be written to the wrong row of the input array: "+why+" (a missing earlier input shifts later ones)")
+		}
+	}
+	if nRows == 0 {
+		r.Undecided("R17.7", "sim.Initialise:input-row", p.Pos(initialise.Pos()), "no write of an input series found")
+	}
 	_ = strings.Contains
 }
